@@ -376,3 +376,14 @@ impl<I: Interner> MayInvalidate<I> {
             .any(|(new, current)| self.aggregate_generic_args(new, current))
     }
 }
+
+/// Verification hook: public wrapper over the crate-private
+/// `SubstitutionExt::may_invalidate` check.
+#[cfg(feature = "verif-hooks")]
+pub fn verif_may_invalidate<I: Interner>(
+    interner: I,
+    new: &Substitution<I>,
+    current: &Canonical<Substitution<I>>,
+) -> bool {
+    new.may_invalidate(interner, current)
+}
